@@ -106,6 +106,7 @@ func (s *PFCPSession) MarkSessionQer(qers []qer) {
 		sessionIdx int
 		sessionMbr uint64
 		sessQerID  uint32
+		found      bool
 	)
 
 	if len(sessQerIDList) > 3 {
@@ -120,11 +121,17 @@ func (s *PFCPSession) MarkSessionQer(qers []qer) {
 			}
 
 			if qer.ulMbr >= sessionMbr {
+				found = true
 				sessionIdx = idx
 				sessQerID = qer.qerID
 				sessionMbr = qer.ulMbr
 			}
 		}
+	}
+
+	if !found {
+		// every common QER is a GBR one: the session has no session-wide limiter
+		return
 	}
 
 	logger.PfcpLog.Infoln("session QER found. QER ID:", sessQerID)
